@@ -748,6 +748,13 @@ def tecmp_jobs():
                         tier=tier, in_max=n + 8, mem_gb=8,
                         sym="device id, counter, flags, interface id, timestamp, data type, all vendor-data bytes other than serial number and version bytes",
                         outside="serial number and version bytes are concrete (their decimal renderings are allocation sizes); std::stringstream formatting is replaced by an equivalent std::string formatter"))
+    # ... and with a concrete vendor-data length field that announces more (or less) than the frame holds
+    for (vdl, n, tier) in ((80, 64, "quick"), (0, 64, "thorough"), (0xFFFF, 70, "thorough"), (24, 64, "thorough")):
+        jobs.append(Job("tecmp.cpp", "h_tecmp", defs={"N": n, "MT": 1, "DT": 0, "DLC": -1, "DECL": -1, "CMSERIAL": 123456, "CMVER": 0x04030201, "CMVER2": 5, "CMVDL": vdl}, unwind=260, variant="str",
+                        unwindset={("TECMP7Decoder", None): 3, ("_M_realloc_insert", None): 3, ("_M_release", None): 3, ("_Sp_counted", None): 3},
+                        tier=tier, in_max=n + 8, mem_gb=8,
+                        sym="device id, counter, flags, interface id, timestamp, data type, all status bytes other than serial number, version bytes and the vendor-data length",
+                        outside="serial number, version bytes and vendor-data length are concrete; std::stringstream formatting is replaced by an equivalent std::string formatter"))
     jobs.append(Job("tecmp.cpp", "h_tecmp_cm_twice", defs={"N": 64, "MT": 1, "DT": -1, "DLC": -1, "DECL": -1, "CMSERIAL": 77}, unwind=260, variant="str",
                     unwindset={("TECMP7Decoder", None): 3, ("_M_realloc_insert", None): 3, ("_M_release", None): 3, ("_Sp_counted", None): 3},
                     tier="quick", in_max=2 * 64 + 8, mem_gb=10, timeout=400,
@@ -990,7 +997,7 @@ def c20_jobs():
             o0.append(c)
     jobs += o0
     # TECMP capture-module status shorter than its fixed block: must not reach the converter, which builds strings from the block
-    jobs += [j for j in tecmp_jobs() if j.entry == "h_tecmp" and j.defs["MT"] == 1 and j.defs["N"] < 64]
+    jobs += [j for j in tecmp_jobs() if j.entry == "h_tecmp" and j.defs["MT"] == 1 and (j.defs["N"] < 64 or "CMVDL" in j.defs)]
     for (a, b, t) in ((8, 5, 3), (1, 0, 0), (16, 16, 8)):
         jobs.append(Job("c20.cpp", "h_c20_reassembly", defs={"SL0": a, "SL1": b, "STR": t}, unwind=300, unwindset={("Decoder6decode", None): 6, ("_M_realloc_insert", None): 4, ("_Hashtable", None): 4, ("_M_release", None): 3},
                         tier="quick" if (a, b) == (8, 5) else "thorough", in_max=2 * (24 + a + b + t) + 8, mem_gb=8, variant="mapmodel",
